@@ -22,37 +22,66 @@ def bracket(xp, x):
     raise AssertionError("unreachable")
 
 
+def _half_status(xp, x, i0, i1, t):
+    """(near_half, exactly_half): whether the weight of the bracketing pair is within rounding of 1/2,
+    and whether it is 1/2 in exact rational arithmetic on the given (float or integer) values."""
+    from fractions import Fraction
+    if i0 == i1 or abs(t - 0.5) >= 1e-12:
+        return False, False
+    try:
+        a, b, xx = Fraction(xp[i0].item() if hasattr(xp[i0], "item") else xp[i0]), \
+            Fraction(xp[i1].item() if hasattr(xp[i1], "item") else xp[i1]), Fraction(x)
+        exact = (xx - a) * 2 == (b - a)
+        # "exactly one half" is only decidable by the implementation when its own arithmetic is exact
+        # whatever the evaluation order (it flips descending grids: x0 - x): require every value involved
+        # to be a small dyadic rational (integers, times in seconds, halves ...)
+        x0 = Fraction(xp[0].item() if hasattr(xp[0], "item") else xp[0])
+        for v in (a, b, xx, x0):
+            if (v * 1024).denominator != 1 or abs(v) > 2 ** 40:
+                exact = False
+    except (TypeError, ValueError):
+        exact = t == 0.5
+    return True, bool(exact)
+
+
 def interp_axis(xp, data, axis, targets, nearest=False):
-    """Returns (nodewise, elementwise, tie_mask) arrays with `axis` replaced by len(targets).
+    """Returns (nodewise, elementwise, ambiguous, alts): arrays with `axis` replaced by len(targets).
     nodewise: a neighbour is missing if ANY element of its slice is NaN; elementwise: per element.
     Rule: valid weight W of non-missing neighbours; result = sum(w v)/W if W > 1/2 else NaN.
-    tie_mask[j] is True when nearest-neighbour target j sits exactly half way (either node ok)."""
+    ambiguous[j] is True when the admissible answer for target j is not unique because the weight is
+    within rounding of one half: a nearest-neighbour target half way (either node may be chosen), or a
+    linear target whose weight is within 1e-12 of - but, in exact rational arithmetic, not equal to -
+    one half (equally valid floating-point evaluations of the weight fall on either side of the
+    threshold). `alts` is a list of arrays holding every admissible answer for such targets (equal to
+    `nodewise` elsewhere). A weight of exactly one half is NOT ambiguous in linear mode: the valid
+    weight does not exceed one half, the result must be missing."""
     data = np.moveaxis(np.asarray(data, dtype=float), axis, 0)
     out_shape = (len(targets),) + data.shape[1:]
     node = np.full(out_shape, np.nan)
     elem = np.full(out_shape, np.nan)
-    alt = np.full(out_shape, np.nan)      # the other admissible answer for nearest ties
+    alts = [np.full(out_shape, np.nan) for _ in range(4)]
     ties = np.zeros(len(targets), dtype=bool)
     for j, x in enumerate(targets):
         br = bracket(xp, x)
         if br is None:
             continue
         i0, i1, t = br
+        near, exact = _half_status(xp, x, i0, i1, t)
+        cands = None
         if nearest and i0 != i1:
-            if t == 0.5:
+            if near:
                 ties[j] = True
-            t_alt = 1.0 - round(t) if t == 0.5 else None
+                cands = [(0.0, "node"), (1.0, "node"), (0.0, "elem"), (1.0, "elem")]
             t = float(np.rint(t))
-        else:
-            t_alt = None
-        for arr, mode in ((node, "node"), (elem, "elem")):
-            arr[j] = _combine(data[i0], data[i1], t, mode)
-        if t_alt is not None:
-            alt[j] = _combine(data[i0], data[i1], t_alt, "node")
-        else:
-            alt[j] = node[j]
+        elif near and not exact:
+            ties[j] = True
+            cands = [(0.5 - 1e-13, "node"), (0.5 + 1e-13, "node"), (0.5 - 1e-13, "elem"), (0.5 + 1e-13, "elem")]
+        node[j] = _combine(data[i0], data[i1], t, "node")
+        elem[j] = _combine(data[i0], data[i1], t, "elem")
+        for a, (tt, mode) in zip(alts, cands or [(t, "node")] * 4):
+            a[j] = _combine(data[i0], data[i1], tt, mode)
     mv = lambda a: np.moveaxis(a, 0, axis)
-    return mv(node), mv(elem), ties, mv(alt)
+    return mv(node), mv(elem), ties, [mv(a) for a in alts]
 
 
 def _combine(v0, v1, t, mode):
